@@ -137,6 +137,13 @@ type trieInst struct {
 	reopen func(variant int) ([32]byte, error)
 	prove  func(k []byte, into *proofMap) error
 	leaves func() ([]kv, error)
+	// fork: a second live trie made the way users of the package copy a trie
+	// (plain trie: value copy `c := *t`, as state.Database.CopyTrie /
+	// SecureTrie.Copy do underneath; secure trie: SecureTrie.Copy()); both share
+	// the node database and, copy-on-write, every node resident at that moment.
+	fork func() *trieInst
+	// node: the RLP blob of a hashed node from the node database (dirty cache or disk).
+	node func(h [32]byte) ([]byte, error)
 }
 
 const secureCacheLimit = 1
@@ -154,7 +161,14 @@ type inT interface {
 func newInTrie(secure bool) *trieInst {
 	disk := iethdb.NewMemDatabase()
 	db := itrie.NewDatabase(disk)
-	var t inT
+	inst, err := mkInTrie(secure, disk, db, nil)
+	if err != nil {
+		core.Fatal("cannot create empty in-tree trie: %v", err)
+	}
+	return inst
+}
+
+func mkInTrie(secure bool, disk *iethdb.MemDatabase, db *itrie.Database, t inT) (*trieInst, error) {
 	open := func(root icommon.Hash) error {
 		if secure {
 			st, err := itrie.NewSecure(root, db, secureCacheLimit)
@@ -171,10 +185,24 @@ func newInTrie(secure bool) *trieInst {
 		t = pt
 		return nil
 	}
-	if err := open(icommon.Hash{}); err != nil {
-		core.Fatal("cannot create empty in-tree trie: %v", err)
+	if t == nil {
+		if err := open(icommon.Hash{}); err != nil {
+			return nil, err
+		}
 	}
-	return &trieInst{
+	inst := &trieInst{
+		fork: func() *trieInst {
+			var c inT
+			if secure {
+				c = t.(*itrie.SecureTrie).Copy()
+			} else {
+				cp := *(t.(*itrie.Trie))
+				c = &cp
+			}
+			f, _ := mkInTrie(secure, disk, db, c)
+			return f
+		},
+		node:   func(h [32]byte) ([]byte, error) { return db.Node(icommon.Hash(h)) },
 		update: func(k, v []byte) error { return t.TryUpdate(k, v) },
 		del:    func(k []byte) error { return t.TryDelete(k) },
 		get:    func(k []byte) ([]byte, error) { return t.TryGet(k) },
@@ -208,6 +236,7 @@ func newInTrie(secure bool) *trieInst {
 			return out, it.Err
 		},
 	}
+	return inst, nil
 }
 
 type upT interface {
@@ -223,7 +252,14 @@ type upT interface {
 func newUpTrie(secure bool) *trieInst {
 	disk := uethdb.NewMemDatabase()
 	db := utrie.NewDatabase(disk)
-	var t upT
+	inst, err := mkUpTrie(secure, disk, db, nil)
+	if err != nil {
+		core.Fatal("cannot create empty reference trie: %v", err)
+	}
+	return inst
+}
+
+func mkUpTrie(secure bool, disk *uethdb.MemDatabase, db *utrie.Database, t upT) (*trieInst, error) {
 	open := func(root ucommon.Hash) error {
 		if secure {
 			st, err := utrie.NewSecure(root, db, secureCacheLimit)
@@ -240,10 +276,24 @@ func newUpTrie(secure bool) *trieInst {
 		t = pt
 		return nil
 	}
-	if err := open(ucommon.Hash{}); err != nil {
-		core.Fatal("cannot create empty reference trie: %v", err)
+	if t == nil {
+		if err := open(ucommon.Hash{}); err != nil {
+			return nil, err
+		}
 	}
-	return &trieInst{
+	inst := &trieInst{
+		fork: func() *trieInst {
+			var c upT
+			if secure {
+				c = t.(*utrie.SecureTrie).Copy()
+			} else {
+				cp := *(t.(*utrie.Trie))
+				c = &cp
+			}
+			f, _ := mkUpTrie(secure, disk, db, c)
+			return f
+		},
+		node:   func(h [32]byte) ([]byte, error) { return db.Node(ucommon.Hash(h)) },
 		update: func(k, v []byte) error { return t.TryUpdate(k, v) },
 		del:    func(k []byte) error { return t.TryDelete(k) },
 		get:    func(k []byte) ([]byte, error) { return t.TryGet(k) },
@@ -274,6 +324,7 @@ func newUpTrie(secure bool) *trieInst {
 			return out, it.Err
 		},
 	}
+	return inst, nil
 }
 
 func verifyIn(root [32]byte, path []byte, p *proofMap) ([]byte, error) {
